@@ -245,7 +245,7 @@ class SendInitOutcomes(Harness):
     def inputs(self):
         # the modulus is concrete here (its measurement for arbitrary contents is O2); symbolic: the type byte of the unexpected message
         nb = self.bits // 8
-        return {'p': b'\x80' + b'\x00' * (nb - 2) + b'\x01', 't': zx.fresh_bytes('t', 1)}
+        return {'p': b'\x80' + b'\x00' * (nb - 2) + b'\x01', 't': zx.fresh_bytes('t', 1), 'desc': zx.fresh_bytes('desc', 5)}
 
     def run(self, M, inp):
         S = AE.sshstr
@@ -260,6 +260,11 @@ class SendInitOutcomes(Harness):
             second = [(inp['t'][0] if isinstance(inp['t'], bytes) else inp['t'][0], b'zz')]
         elif sec == 'short-group':
             second = [(31, S(b'\x00' + inp['p'])[:6])]
+        elif sec == 'debug-then-disconnect':
+            # a refusal preceded by a debug message; the description text is symbolic (it must never be read as a group)
+            second = [(4, b'\x00' + S(b'note') + S(b'')), (1, AE.u32(11) + S(b'no matching DH group ' + inp['desc']) + S(b''))]
+        elif sec == 'debug-then-group':
+            second = [(4, b'\x00' + S(b'note') + S(b'')), group, reply]
         elif sec == 'group-without-reply':
             second = [group]
         else:
@@ -275,6 +280,8 @@ class SendInitOutcomes(Harness):
         class Sock(FakeSockRW):
             def is_connected(self_): return True
             def close(self_): pass
+        if zx.active():
+            zx.cur().pow_hook = lambda g, e, p_: 1        # only reached with symbolic operands, i.e. when peer text is (wrongly) taken for a group
         orig = M.gextest.GEXTest.reconnect
         M.gextest.GEXTest.reconnect = staticmethod(lambda *a, **kw: True)
         try:
@@ -294,7 +301,9 @@ class SendInitOutcomes(Harness):
         if isinstance(r1, Exc) or isinstance(r2, Exc):
             return
         yield 'answered-request-reports-the-group-size', s_and(r1[0] == self.bits, r1[1] is False)
-        if self.second == 'group-without-reply':
+        if self.second == 'debug-then-group':
+            yield 'debug-messages-are-skipped', r2[0] == self.bits
+        elif self.second == 'group-without-reply':
             # the group was handed out; whether a missing follow-up reply voids the measurement is not fixed by the property: either the size or no size
             yield 'size-of-this-request-or-none', s_or(r2[0] == self.bits, r2[0] == -1)
         else:
@@ -350,7 +359,7 @@ def tasks(tier):
         if bits % 8:
             T.append(Measure(bits, False))
     for bits in ((1024, 2048) if q else (512, 1024, 2048, 3072, 4096)):
-        for sec in ('dead', 'disconnect', 'other-type', 'short-group', 'group-without-reply'):
+        for sec in ('dead', 'disconnect', 'other-type', 'short-group', 'group-without-reply', 'debug-then-disconnect', 'debug-then-group'):
             T.append(SendInitOutcomes(bits, sec))
     for sw in ('OpenSSH_8.0', 'dropbear_2020.81', 'NotOpenSSH-but-OpenSSH-inside'):
         for adv in (True, False):
